@@ -5,7 +5,8 @@
                    → `<model> ~ <ref>` with  `ok:<n>:<item hex,…>` (bottom first) | `err:<family>`
     c06.verify  scriptSig scriptPubKey flags tx inIdx   Model.verifyScript ~ Ref.verifyScript
                    → `<model> ~ <ref>` with  `ok` | `err:<family>`
-    (`<ref>` is `-` outside the reference's domain: negative inIdx or CLEANSTACK without P2SH)
+    (`<ref>` is `-` outside the domain of the equivalence theorems: a negative inIdx that does not wrap
+     around both vin and vout — `IdxOK` of Props/C06Concrete.lean — or CLEANSTACK without P2SH)
     c06.seq     (kind a0 a1 flags tx inIdx txref)*   a history of calls in one process: kind `e` = eval
                    (a0 = script, a1 = stack), kind `v` = verify (a0 = scriptSig, a1 = scriptPubKey); `txref`
                    says how the harness obtains txTo (the model is a pure function and ignores it)
@@ -19,8 +20,8 @@
   The concrete `Env` is `Model.ScriptEval.Real.realEnv` (Model/ScriptEnvReal.lean): SHA-1 / RIPEMD-160 /
   SHA-256 from Crypto/*, `sigCheck` = `Model.Sighash.rawSignatureHash` (C03's model) + SEC1 point
   decoding + strict DER + ECDSA verification from Crypto/Secp256k1 — the very term the theorems of
-  Props/C06Concrete.lean are about.  The transaction must be in wire range (it serialises and
-  `from_tx` accepts it) and `inIdx` must be ≥ 0 or < −|vin|, otherwise the reply is `bad-args`.
+  Props/C06Concrete.lean are about.  Nothing is refused: a transaction outside wire range or a
+  negative `inIdx` gets the modelled outcome (`err:py:<Class>` where RawSignatureHash raises).
 -/
 import Driver.Util
 import Driver.TxFmt
@@ -38,13 +39,9 @@ namespace Driver.C06
 open BtcVerif Driver BtcVerif.Spec.Script
 
 /-- the concrete environment is `Model.ScriptEval.Real` (the term Props/C06Concrete.lean talks about) -/
-def concreteEnv (tx : Tx) (inIdx : Int) : Env := Model.ScriptEval.Real.realEnv tx inIdx.toNat
+def concreteEnv (tx : Tx) (inIdx : Int) : Env := Model.ScriptEval.Real.realEnv tx inIdx
 
 def mkCtx (tx : Tx) (inIdx : Int) : Model.ScriptEval.Ctx := Model.ScriptEval.Real.realCtx tx inIdx
-
-/-- a negative `inIdx` that Python would accept as an index from the end (−|vin| ≤ inIdx < 0) is outside the
-    modelled domain of the signature hash (C03 takes a natural index): such requests are refused -/
-def idxOk (tx : Tx) (inIdx : Int) : Bool := decide (0 ≤ inIdx) || decide (inIdx < -(tx.vin.length : Int))
 
 def parseFlags? (s : String) : Option Flags := do
   let n ← parseNat? s
@@ -59,85 +56,88 @@ def parseStack? (s : String) : Option (List Bytes) :=
 def showStack (st : List Bytes) : String :=
   s!"ok:{st.length}:" ++ ",".intercalate (st.reverse.map toHex)
 
-def showErr (e : Model.ScriptEval.Err) : String := "err:" ++ e.toExc.family
+/-- `IdxOK` of Props/C06Concrete.lean: the indices for which the equivalence theorems speak
+    (non-negative, or negative and wrapping around both `vin` and `vout`) -/
+def idxOK (tx : Tx) (inIdx : Int) : Bool :=
+  decide (0 ≤ inIdx) || (decide (-(tx.vin.length : Int) ≤ inIdx) && decide (-(tx.vout.length : Int) ≤ inIdx))
 
-/-- the transaction must serialise, so that the sighash transcription has no error branch -/
-def txOk (tx : Tx) : Bool :=
-  match Model.Wire.serTx tx, Model.Sighash.fromTx tx with
-  | .ok _, .ok _ => true
-  | _, _ => false
+def showItems (st : List Bytes) : String := ",".intercalate (st.reverse.map toHex)
 
-def evalBoth (script : Bytes) (stack : List Bytes) (fl : Flags) (tx : Tx) (inIdx : Int) : String :=
+/-- `detail`: for an EvalScriptError also the captured state `{stack|altstack|nOpCount}` (items bottom
+    first; the attributes that are `None` in Python show as empty / 0), `{verify}` for VerifyScriptError -/
+def showErr (detail : Bool) (e : Model.ScriptEval.Err) : String :=
+  let base := "err:" ++ e.toExc.family
+  if !detail then base else
+  match e with
+  | .eval cap => base ++ "{" ++ showItems cap.stack ++ "|" ++ showItems cap.altstack ++ "|" ++ toString cap.nOpCount ++ "}"
+  | .verify => base ++ "{verify}"
+  | _ => base
+
+def evalBoth (detail : Bool) (script : Bytes) (stack : List Bytes) (fl : Flags) (tx : Tx) (inIdx : Int) : String :=
   let m := match Model.ScriptEval.evalScript (mkCtx tx inIdx) fl stack script with
     | .ok st => showStack st
-    | .error e => showErr e
-  let r := if inIdx < 0 then "-" else
+    | .error e => showErr detail e
+  let r := if !idxOK tx inIdx then "-" else
     match Ref.evalScript (concreteEnv tx inIdx) fl stack script with
     | some st => showStack st
     | none => "err:validation"
   m ++ " ~ " ++ r
 
-def verifyBoth (sig spk : Bytes) (fl : Flags) (tx : Tx) (inIdx : Int) : String :=
+def verifyBoth (detail : Bool) (sig spk : Bytes) (fl : Flags) (tx : Tx) (inIdx : Int) : String :=
   let m := match Model.ScriptEval.verifyScript (mkCtx tx inIdx) fl sig spk with
     | .ok _ => "ok"
-    | .error e => showErr e
-  let r := if inIdx < 0 ∨ !fl.admissible then "-" else
+    | .error e => showErr detail e
+  let r := if !idxOK tx inIdx || !fl.admissible then "-" else
     if Ref.verifyScript (concreteEnv tx inIdx) fl sig spk then "ok" else "err:validation"
   m ++ " ~ " ++ r
 
-def stepReply (kind a0 a1 fl tx idx : String) : String :=
+def stepReply (detail : Bool) (kind a0 a1 fl tx idx : String) : String :=
   match parseHex? a0, parseFlags? fl, TxFmt.parseTx? tx, parseInt? idx with
   | some a0, some fl, some tx, some idx =>
-      if !(txOk tx && idxOk tx idx) then badArgs
-      else if kind == "e" then
+      if kind == "e" then
         (match parseStack? a1 with
-         | some st => evalBoth a0 st fl tx idx
+         | some st => evalBoth detail a0 st fl tx idx
          | none => badArgs)
       else if kind == "v" then
         (match parseHex? a1 with
-         | some spk => verifyBoth a0 spk fl tx idx
+         | some spk => verifyBoth detail a0 spk fl tx idx
          | none => badArgs)
       else badArgs
   | _, _, _, _ => badArgs
 
 /-- replies of a history: groups of 7 fields -/
-def seqReplies : List String → Option (List String)
+def seqReplies (detail : Bool) : List String → Option (List String)
   | [] => some []
   | kind :: a0 :: a1 :: fl :: tx :: idx :: _txref :: rest => do
-      let rs ← seqReplies rest
-      pure (stepReply kind a0 a1 fl tx idx :: rs)
+      let rs ← seqReplies detail rest
+      pure (stepReply detail kind a0 a1 fl tx idx :: rs)
   | _ => none
 
-def handle (op : String) (args : List String) : Option String :=
+/-- `detail = true` is what C07 asks for (captured error state printed) -/
+def handleWith (detail : Bool) (op : String) (args : List String) : Option String :=
   match op, args with
   | "c06.seq", steps => some <|
-      match seqReplies steps with
+      match seqReplies detail steps with
       | some rs => if rs.any (· == badArgs) then badArgs else " ;; ".intercalate rs
       | none => badArgs
-  | "c06.eval", [sc, st, fl, tx, idx] => some <|
-      match parseHex? sc, parseStack? st, parseFlags? fl, TxFmt.parseTx? tx, parseInt? idx with
-      | some sc, some st, some fl, some tx, some idx =>
-          if txOk tx && idxOk tx idx then evalBoth sc st fl tx idx else badArgs
-      | _, _, _, _, _ => badArgs
-  | "c06.verify", [sig, spk, fl, tx, idx] => some <|
-      match parseHex? sig, parseHex? spk, parseFlags? fl, TxFmt.parseTx? tx, parseInt? idx with
-      | some sig, some spk, some fl, some tx, some idx =>
-          if txOk tx && idxOk tx idx then verifyBoth sig spk fl tx idx else badArgs
-      | _, _, _, _, _ => badArgs
+  | "c06.eval", [sc, st, fl, tx, idx] => some <| stepReply detail "e" sc st fl tx idx
+  | "c06.verify", [sig, spk, fl, tx, idx] => some <| stepReply detail "v" sig spk fl tx idx
   | "c06.num", [v] => some <|
       match parseInt? v with
       | some v =>
           (match Model.ScriptEval.bn2vch v with
            | .ok b => toHex b
-           | .error e => showErr e) ++ " ~ " ++ toHex (Ref.scriptNumSer v)
+           | .error e => showErr false e) ++ " ~ " ++ toHex (Ref.scriptNumSer v)
       | none => badArgs
   | "c06.dec", [h] => some <|
       match parseHex? h with
       | some b =>
           (match Model.ScriptEval.vch2bn b with
            | .ok v => toString v
-           | .error e => showErr e) ++ " ~ " ++ toString (Ref.scriptNumDecode b)
+           | .error e => showErr false e) ++ " ~ " ++ toString (Ref.scriptNumDecode b)
       | none => badArgs
   | _, _ => none
+
+def handle (op : String) (args : List String) : Option String := handleWith false op args
 
 end Driver.C06
